@@ -25,3 +25,50 @@ end
 def stdChunks (v : GoVal) : Res Cause (List Bytes) := writeChunksL v.toLiquid
 
 def stdOut : OutPrims := { chunks := stdChunks }
+
+/-- placeholder until `Compare.lean` is merged -/
+def cmpStub (_ _ : GoVal) : Res Cause Bool := .unmodelled "comparison model not linked"
+
+/-- every modelled filter body; each `Filters/*.lean` file contributes its `impls` list here -/
+def stdFilterImpls : List (Bytes × FilterImpl) := Num.impls
+
+def stdPrims : Prims :=
+  { equal := cmpStub, less := cmpStub, contains := cmpStub, equalFn := cmpStub,
+    applyFilter := fun name recv args => applyFilter (lookupImpl stdFilterImpls) name recv args,
+    hasFilter := fun name => (lookupSig name).isSome }
+
+def fsOfList (files : List (Bytes × Bytes)) : FS :=
+  { read := fun p => match files.find? (fun f => f.1 == p) with
+      | some f => .content f.2
+      | none => .notExist,
+    cache := fun _ => none }
+
+/-! ## Canonical result line of a whole render (must match `harness/stream_render.go`) -/
+
+def causeText : Cause → String
+  | .syntax => "syntax" | .typeErr => "typeErr" | .interp => "interp"
+  | .undefinedFilter n => "undefinedFilter:" ++ hexField n
+  | .filterErr n inner => "filterErr:" ++ hexField n ++ ":" ++ causeText inner
+  | .parity => "parity" | .divZero => "divZero" | .io => "io" | .brk => "brk" | .cont => "cont"
+  | .other t => if t == "undefinedVariable" || t == "forElse" || t == "notExist" || t.startsWith "located:" then "other:" ++ t else "other"
+  | .none => "none"
+
+def errKindText (e : SErr) : String :=
+  match e.cause with
+  | .none =>
+    (match e.msg with
+     | .undefinedTag => "undefinedTag" | .unterminated => "unterminated" | .notInside => "notInside"
+     | .cycleOutside => "cycleOutside" | .loopMod => "loopMod" | .includeArg => "includeArg"
+     | .tagSyntax => "syntax" | .byCause => "other")
+  | .syntax => "syntax" | .typeErr => "typeErr" | .interp => "interp" | .brk => "brk" | .cont => "cont" | .io => "io"
+  | .undefinedFilter _ => "undefinedFilter"
+  | .filterErr _ _ => "filterErr"
+  | .other t => if t == "undefinedVariable" then "strictUndefined" else if t == "forElse" then "forElse"
+                else if t == "notExist" then "includeIO" else "other"
+  | _ => "other"
+
+def RunResult.show (path : Bytes) : RunResult → String
+  | .ok out => "ok " ++ hexField out
+  | .err e => s!"err {errKindText e} {e.line} {hexField (if e.pathSet then path else [])} {causeText e.cause}"
+  | .panic _ => "panic"
+  | .unmodelled w => "unmodelled " ++ w
